@@ -1,6 +1,7 @@
 import WfModel.Replay
 import WfModel.Runner
 import WfModel.Context
+import WfModel.CollectConc
 import WfModel.Serial
 import Driver.Util
 /-! Line protocol for the engine reducer model (token streams, see harness/enc.py). -/
@@ -410,6 +411,19 @@ def step (d : DState) (line : String) : DState × String :=
     | some ((ex, es), []) =>
       let h := es.foldl (collectRound ex) {}
       (d, s!"B {sList sEv h.buffer} R {sList (sList sEv) h.returned} D {sList sEv h.dropped}")
+    | _ => (d, "bad-op")
+  -- C09: a whole schedule of a collecting step with any number of invocations in flight (`WfModel/CollectConc.lean`):
+  -- C09CH <expected> <n> (S <ev> | F <ev>)*n
+  | "C09CH" :: ts =>
+    let act : P C09Act := do
+      match ← tok with
+      | "S" => let e ← ev; pure (.start e)
+      | "F" => let e ← ev; pure (.finish e)
+      | _ => fun _ => none
+    match (do let ex ← counted nat; let as ← counted act; pure (ex, as)) ts with
+    | some ((ex, as), []) =>
+      let c := c09ConcRun ex as
+      (d, s!"B {sList sEv c.buffer} F {sList (fun f => sEv f.ev ++ " " ++ sList sEv f.snap) c.flights} R {sList (fun p => sEv p.1 ++ " " ++ sList sEv p.2) c.returned} D {sList sEv c.dropped}")
     | _ => (d, "bad-op")
   -- the naming of default waiter ids: autoids <n> (<ty> <req|_> <id>)*
   | "autoids" :: ts =>
